@@ -244,68 +244,80 @@ func c10RunSrc(c *Ctx, fields []driver.VerifField, st *c10Stats) {
 	for k := 0; k < c.Budget(25, 250); k++ {
 		p, data := c10SrcProfile(c.R)
 		os.WriteFile(c10SrcProfileFile, data, 0o644)
-		p0dump := Render(DumpProfile(p))
-		cfg0 := c10SrcCfg(c.R)
-		restoreG := driver.VerifGlobals()
-		driver.VerifSetCurrentConfig(cfg0)
-		o := driver.VerifSetDefaults(&plugin.Options{UI: c10NullUI{}, Writer: &c10MemWriter{}, HTTPTransport: transport.New(nil)})
-		h, err := driver.VerifWeb(p, o)
-		if err != nil {
-			panic(err)
-		}
-		strs := map[string]bool{}
-		c19CollectCfg(strs, cfg0)
-		var stepT, obsT []Term
-		steps := c10SrcLines(c.R, 3+c.R.Intn(4))
-		for _, ln := range steps {
-			if i := strings.Index(ln, "="); i >= 0 {
-				name, value := ln[:i], ln[i+1:]
-				driver.VerifConfigure(name, value)
-				strs[value] = true
-				stepT = append(stepT, L(S("set"), S(name), S(value)))
-				obsT = append(obsT, L(S("s"), c19CfgTerm(driver.VerifCurrentConfig())))
-				continue
-			}
-			fs := strings.Fields(ln)
-			path := "/source"
-			if fs[0] == "top" {
-				path = "/top"
-			}
-			q := url.Values{}
-			if len(fs) > 1 {
-				q["f"] = []string{fs[1]}
-			}
-			rq := c10Req{path, q}
-			code, hash := c10Do(h, rq)
-			state := driver.VerifConfigDump(driver.VerifCurrentConfig())
-			fresh := func() c10RefOut {
-				return c10RunChild(c10RefJob{Mode: "web", Prof: c10SrcProfileFile, Pairs: state, Path: path, Query: q.Encode()}, st)
-			}
-			first := fresh()
-			same := first.Code == code && len(first.Hashes) == 1 && first.Hashes[0] == hash
-			for attempt := 0; attempt < 6 && !same && c10RetryBudget > 0; attempt++ {
-				c10RetryBudget--
-				again := fresh()
-				if again.Code == code && len(again.Hashes) == 1 && again.Hashes[0] == hash {
-					st.flaky++
-					same = true
-				} else if len(again.Hashes) == 1 && len(first.Hashes) == 1 && again.Hashes[0] != first.Hashes[0] {
-					st.flaky++
-					same = true
-				}
-			}
-			if !same {
-				st.leaks++
-			}
-			c19Collect(strs, q)
-			stepT = append(stepT, L(S("req"), S(path), c19ValuesTerm(q)))
-			obsT = append(obsT, L(ZI(code), Bool(same)))
-		}
-		unchanged := Render(DumpProfile(p)) == p0dump
-		restoreG()
-		in := L(S("websrc"), c19PfTable(strs), c19CfgTerm(cfg0), L(stepT...))
-		c.Case("web-src", in, L(L(obsT...), Bool(unchanged)), true, "op:websrc")
+		c10WebSteps(c, "web-src", p, c10SrcProfileFile, c10SrcCfg(c.R), c10SrcLines(c.R, 3+c.R.Intn(4)), st)
 	}
 	c.Extra["fresh_references_in_child_processes"] = st.childRefs
 	c.Extra["src_listings_showing_tree_A_B_none"] = []int{st.srcA, st.srcB, st.srcNone}
+}
+
+// c10WebSteps: option assignments ("name=value", through configure) and requests ("top X", "list X" ->
+// /source, or "/path?query") on ONE web interface; every response is compared with the response of a
+// fresh PROCESS in the same option state (profile read from profFile). Emits a "websrc" case.
+func c10WebSteps(c *Ctx, gen string, p *profile.Profile, profFile string, cfg0 driver.VerifConfig, steps []string, st *c10Stats) {
+	p0dump := Render(DumpProfile(p))
+	restoreG := driver.VerifGlobals()
+	driver.VerifSetCurrentConfig(cfg0)
+	o := driver.VerifSetDefaults(&plugin.Options{UI: c10NullUI{}, Writer: &c10MemWriter{}, HTTPTransport: transport.New(nil)})
+	h, err := driver.VerifWeb(p, o)
+	if err != nil {
+		panic(err)
+	}
+	strs := map[string]bool{}
+	c19CollectCfg(strs, cfg0)
+	var stepT, obsT []Term
+	for _, ln := range steps {
+		if i := strings.Index(ln, "="); i >= 0 {
+			name, value := ln[:i], ln[i+1:]
+			driver.VerifConfigure(name, value)
+			strs[value] = true
+			stepT = append(stepT, L(S("set"), S(name), S(value)))
+			obsT = append(obsT, L(S("s"), c19CfgTerm(driver.VerifCurrentConfig())))
+			continue
+		}
+		fs := strings.Fields(ln)
+		path := "/source"
+		if fs[0] == "top" {
+			path = "/top"
+		}
+		q := url.Values{}
+		if len(fs) > 1 {
+			q["f"] = []string{fs[1]}
+		}
+		if strings.HasPrefix(ln, "/") { // "/path?query"
+			path = ln
+			if k := strings.Index(ln, "?"); k >= 0 {
+				path = ln[:k]
+				q, _ = url.ParseQuery(ln[k+1:])
+			}
+		}
+		rq := c10Req{path, q}
+		code, hash := c10Do(h, rq)
+		state := driver.VerifConfigDump(driver.VerifCurrentConfig())
+		fresh := func() c10RefOut {
+			return c10RunChild(c10RefJob{Mode: "web", Prof: profFile, Pairs: state, Path: path, Query: q.Encode()}, st)
+		}
+		first := fresh()
+		same := first.Code == code && len(first.Hashes) == 1 && first.Hashes[0] == hash
+		for attempt := 0; attempt < 6 && !same && c10RetryBudget > 0; attempt++ {
+			c10RetryBudget--
+			again := fresh()
+			if again.Code == code && len(again.Hashes) == 1 && again.Hashes[0] == hash {
+				st.flaky++
+				same = true
+			} else if len(again.Hashes) == 1 && len(first.Hashes) == 1 && again.Hashes[0] != first.Hashes[0] {
+				st.flaky++
+				same = true
+			}
+		}
+		if !same {
+			st.leaks++
+		}
+		c19Collect(strs, q)
+		stepT = append(stepT, L(S("req"), S(path), c19ValuesTerm(q)))
+		obsT = append(obsT, L(ZI(code), Bool(same)))
+	}
+	unchanged := Render(DumpProfile(p)) == p0dump
+	restoreG()
+	in := L(S("websrc"), c19PfTable(strs), c19CfgTerm(cfg0), L(stepT...))
+	c.Case(gen, in, L(L(obsT...), Bool(unchanged)), true, "op:websrc")
 }
